@@ -14,6 +14,14 @@ Relations
          VCF / PGEN is read back with pysam / pgenlib.  The runs of one input (POP source, .bp source, VCF /
          PGEN input and output) must give equal answers.  30% of the cases also carry what else the command takes:
          missing calls ('.|.', '.|1') with and without --discard-missing, calls written unphased, --maf, --chunk-size.
+         The .hap file read in full comes in seven line layouts: three keep a haplotype's V lines together, four
+         interleave the V lines of DIFFERENT haplotypes (round-robin, a haplotype's V lines in two runs around the
+         others', V lines before and after the H lines, any order-preserving merge of the H/R sequence and the
+         per-haplotype V sequences); the api relation reads the same layouts.  45% of the file cases name their files:
+         stems and directories with dots (cohort.chr1, x.vcf, .hidden, a..b, d.v1/, a.b/c.d/), suffixes .vcf / .vcf.gz /
+         .bcf / .VCF / .pgen, another data set's .bp under the names wrong derivations of the .bp path would pick
+         (cohort.bp beside cohort.chr1.bp, d.bp beside d.v1/), stale POP fields beside the right .bp; agree also compares
+         the .bp paths the run probed / opened with C04_ModelIO.bp_path_of, character by character.
   Both relations end with a width-boundary stream (np.uint8 cells / ancestry codes, np.int16 / np.uintc index arrays):
   254-257 ancestry labels, allele indices 127|128|200|253, 255-300 haplotypes, 255-257 variants per haplotype,
   255-257 samples.
@@ -31,7 +39,8 @@ PROP = "C04"
 CLAIMED = True
 COQ_MODULES = ["C04_Check", "C04_CheckSeq", "C04_Proofs", "C04_ProofsSet", "C04_ProofsFile", "C04_ProofsSpec", "C04_ProofsAnc",
                "C04_Legacy", "C04_ProofsPerm", "C04_ProofsDup", "C04_ProofsSeq", "C04_ProofsBp", "C04_ProofsOrder",
-               "C04_ProofsTotal", "C04_ModelOpt", "C04_CheckOpt", "C04_ProofsOpt", "C04_ProofsOptC"]
+               "C04_ProofsTotal", "C04_ModelOpt", "C04_CheckOpt", "C04_ProofsOpt", "C04_ProofsOptC", "C04_ModelIO", "C04_CheckIO",
+               "C04_ProofsIO"]
 PROPERTY_MODULE = "C04_Property"
 ALLOWED_AXIOMS = []
 RULE = (
@@ -47,7 +56,12 @@ RULE = (
     "transform_haps or the CLI with --region/--id/--sample; non-trivial = an output record with both 0 and 1 cells, or "
     "a haplotype omitted. 30% of the file cases add missing calls with/without --discard-missing (one requested sample "
     "stays complete), unphased calls, --maf (thresholds on / next to / between attainable frequencies) and --chunk-size. "
-    "Width stream (3 api + 2 file cases per quick run, 30 + 16 thorough, + 7 corpus files): label dictionaries / POP "
+    "Plain .hap files (both relations) are written in 7 line layouts, 4 of which interleave the V lines of different "
+    "haplotypes (round-robin, two runs per haplotype, around the H lines, any order-preserving merge). 45% of the file "
+    "cases name the genotypes file <dir>/<stem>.vcf|.vcf.gz|.bcf|.VCF|.pgen with stems and directories that contain dots, "
+    "75% of those add 1-3 decoy .bp files (another data set, or other samples) under names wrong derivations of the .bp "
+    "path pick, 30% stale POP fields in the VCF of the .bp run. "
+    "Width stream (3 api + 2 file cases per quick run, 30 + 16 thorough, + 7 corpus files; 2 further corpus files: V lines round-robin, dotted stem with a decoy .bp): label dictionaries / POP "
     "fields / .bp tracts with 254-257 distinct labels (257 is refused by both readers with OverflowError), codes and "
     "allele indices on both sides of 127|128 and at 253|254|255, 255-300 haplotypes, 255-257 variants in one haplotype, "
     "255-257 samples. Distinct = distinct canonical JSON."
@@ -62,6 +76,8 @@ TRUSTED = [
     "the genotype object and the haplotype collection that transform_haps hands to Haplotypes[Ancestry].transform are "
     "recorded by wrapping that method from the harness process (no source change); ancestry codes are decoded through "
     "the object's own ancestry_labels",
+    "the .bp paths a run touches are recorded by wrapping pathlib.Path.exists and Breakpoints.read from the harness "
+    "process (paths ending in .bp, relative to the run's scratch directory); a run that touches none makes no claim",
     "'reported' is observed as a WARNING+ log record of haptools.transform that names an absent variant / omitted "
     "haplotype or says that variants could not be found",
 ]
@@ -80,6 +96,12 @@ ASSUMPTIONS = [
     "haplotypes have at least one variant in the api relation (the property's quantifier says 1..many): for a haplotype "
     "without V lines Haplotype.transform raises ValueError (a broadcasting accident) while Haplotypes.transform answers "
     "all-1, also for an absent label; the file relation rarely writes one (set-wise path only)",
+    "the accompanying breakpoints file is <stem>.bp beside <stem>.vcf / .vcf.gz / .bcf / .VCF / .pgen "
+    "(docs/commands/transform.rst: 'the same name as the genotypes file but with a .bp file ending'); not generated: "
+    ".vcf.bgz and an upper-case .GZ (the code replaces only the last suffix there: x.VCF.GZ -> x.VCF.bp is recorded in "
+    "C04_bp_path_examples), an empty stem, paths that pathlib would normalise (trailing '/', '//', './'); with --ancestry, "
+    "a PGEN input always has its .bp (the refusal 'A .bp file is needed' is modelled by resolve_source, not generated)",
+    "V lines that name no H / R line of the file are not generated (read: KeyError; model: read_lines = Err E_Key)",
     "genotype variant IDs are distinct (Genotypes.index raises otherwise); .hap IDs are distinct and differ from contig names",
     "ancestry labels have at most 6 characters and contigs at most 10 (the .bp reader's fixed-width fields)",
     "haplotype start >= 1 (a start of 0 cannot be written as a VCF POS)",
@@ -359,7 +381,7 @@ class Api(Relation):
                     h["vars"] = srt[::-1] if rng.random() < 0.5 else [srt[i] for i in rng.permutation(len(srt))]
         case["ops"] = self._gen_ops(rng, haps, source, cls)
         case["source"] = source
-        case["layout"] = ["HV", "interleaved", "V-first"][int(rng.integers(0, 3))]
+        case["layout"] = pick_layout(rng)
         case["seq"] = cls
         return case
 
@@ -760,6 +782,10 @@ class Api(Relation):
         if ops:
             out.append(f"seq:{inp.get('seq', '?')}")
             out.append(f"source={inp.get('source', 'memory')}")
+            if inp.get("source") == "file":
+                out.append(f"plain-hap-{inp.get('layout', 'HV').split(':')[0]}")
+                if vlines_interleaved(inp["haps"], inp.get("layout", "HV")):
+                    out.append("hap-V-lines-of-different-haplotypes-interleaved")
             out.append(f"ops={len(ops)}")
             out += sorted({"op:" + o[0] for o in ops})
             if isinstance(obs, dict) and obs.get("steps"):
@@ -887,6 +913,23 @@ def write_vcf(path, samples, variants, data, pop=None, index=True, unph=()):
     return path + ".gz"
 
 
+def rename_vcf(path, new):
+    """the plain VCF under another suffix: .VCF (the same text) or .bcf (converted with pysam, un-indexed)"""
+    import pysam
+
+    if new.endswith(".bcf"):
+        vin = pysam.VariantFile(path)
+        out = pysam.VariantFile(new, "wb", header=vin.header)
+        for r in vin:
+            out.write(r)
+        out.close()
+        vin.close()
+        os.unlink(path)
+    else:
+        os.rename(path, new)
+    return new
+
+
 def write_pgen(prefix, samples, variants, data, unph=()):
     import pgenlib
 
@@ -917,31 +960,102 @@ def write_pgen(prefix, samples, variants, data, unph=()):
     return prefix + ".pgen"
 
 
+#: line layouts of a plain (un-indexed) .hap file.  The first three keep the V lines of a haplotype together; the others
+#: interleave the V lines of DIFFERENT haplotypes (legal: a V line names its haplotype), which is what distinguishes a
+#: reader that collects the V lines per haplotype ID from one that assumes a haplotype's V lines are consecutive.
+#: Every layout keeps the relative order of the H / R lines (= order of the output records) and of the V lines of
+#: one haplotype (= Haplotype.variants), so the logical content is the same `haps` list.
+LAYOUTS_GROUPED = ["HV", "interleaved", "V-first"]
+LAYOUTS_MIXED = ["V-roundrobin", "V-split", "V-around-H", "merge"]
+
+
+def _merge_stable(seqs, rng):
+    """a random interleaving of the sequences that keeps the order inside each of them"""
+    slots = [i for i, s in enumerate(seqs) for _ in s]
+    slots = [slots[i] for i in rng.permutation(len(slots))]
+    its = [iter(s) for s in seqs]
+    return [next(its[i]) for i in slots]
+
+
+def hap_lines(haps, layout="HV"):
+    """the H / R / V lines of a .hap file in file order: ["H", hap] or ["V", hap id, V entry].
+    layout: HV (all H/R lines, then the V lines haplotype by haplotype) | interleaved (each H line followed by its V
+    lines) | V-first (V lines haplotype by haplotype, then the H/R lines) | V-roundrobin (H/R lines, then the first V
+    line of every haplotype, the second of every haplotype, ...) | V-split (H/R lines, the first half of every
+    haplotype's V lines, then the second halves: a haplotype's V lines in two runs around the others') | V-around-H
+    (first halves round-robin BEFORE the H/R lines, second halves in reverse haplotype order after them) |
+    merge:<seed> (any interleaving of the H/R sequence and the per-haplotype V sequences: fully shuffled up to the
+    orders that carry meaning)"""
+    heads = [["H", h] for h in haps]
+    vs = [[["V", h["id"], v] for v in h["vars"]] for h in haps if not h["rep"]]
+    flat = [x for s in vs for x in s]
+    name = layout.split(":")[0]
+
+    def robin(seqs):
+        out, k = [], 0
+        while any(k < len(s) for s in seqs):
+            out += [s[k] for s in seqs if k < len(s)]
+            k += 1
+        return out
+
+    if name == "V-first":
+        return flat + heads
+    if name == "interleaved":
+        out = []
+        for h in haps:
+            out.append(["H", h])
+            if not h["rep"]:
+                out += [["V", h["id"], v] for v in h["vars"]]
+        return out
+    if name == "V-roundrobin":
+        return heads + robin(vs)
+    if name == "V-split":
+        return heads + [x for s in vs for x in s[: (len(s) + 1) // 2]] + [x for s in vs for x in s[(len(s) + 1) // 2:]]
+    if name == "V-around-H":
+        return robin([s[: len(s) // 2] for s in vs]) + heads + [x for s in vs[::-1] for x in s[len(s) // 2:]]
+    if name == "merge":
+        seed = int(layout.split(":")[1]) if ":" in layout else 0
+        return _merge_stable([heads] + vs, np.random.default_rng([seed, 11]))
+    return heads + flat
+
+
+def vlines_interleaved(haps, layout):
+    """does some haplotype's run of V lines come up again after V lines of another haplotype?"""
+    seen, last = set(), None
+    for ln in hap_lines(haps, layout):
+        if ln[0] == "V":
+            if ln[1] != last and ln[1] in seen:
+                return True
+            seen.add(ln[1])
+            last = ln[1]
+    return False
+
+
+def pick_layout(rng, mixed_p=0.5):
+    if rng.random() < mixed_p:
+        name = LAYOUTS_MIXED[int(rng.integers(0, len(LAYOUTS_MIXED)))]
+        return f"merge:{int(rng.integers(0, 2**31))}" if name == "merge" else name
+    return LAYOUTS_GROUPED[int(rng.integers(0, len(LAYOUTS_GROUPED)))]
+
+
 def write_hap(path, haps, anc, indexed, layout="HV"):
     import pysam
 
-    lines = []
+    body = []
     if anc:
-        lines += ["#\torderH\tancestry", "#\tversion\t0.2.0", "#H\tancestry\ts\tLocal ancestry"]
+        body += ["#\torderH\tancestry", "#\tversion\t0.2.0", "#H\tancestry\ts\tLocal ancestry"]
     else:
-        lines += ["#\tversion\t0.2.0"]
-    vlines = []
-    for h in haps:
-        if h["rep"]:
-            lines.append(f"R\t{h['chrom']}\t{h['start']}\t{h['end']}\t{h['id']}")
+        body += ["#\tversion\t0.2.0"]
+    for ln in hap_lines(haps, "HV" if indexed else layout):
+        if ln[0] == "V":
+            v = ln[2]
+            body.append(f"V\t{ln[1]}\t{v[2]}\t{v[3]}\t{v[0]}\t{v[1]}")
         else:
-            lines.append(f"H\t{h['chrom']}\t{h['start']}\t{h['end']}\t{h['id']}" + (f"\t{h['anc']}" if anc else ""))
-            for v in h["vars"]:
-                vlines.append(f"V\t{h['id']}\t{v[2]}\t{v[3]}\t{v[0]}\t{v[1]}")
-    if layout == "V-first" and not indexed:
-        body = [l for l in lines if l.startswith("#")] + vlines + [l for l in lines if not l.startswith("#")]
-    elif layout == "interleaved" and not indexed:
-        body = [l for l in lines if l.startswith("#")]
-        for h in haps:
-            body += [l for l in lines if not l.startswith("#") and l.split("\t")[4] == h["id"]]
-            body += [l for l in vlines if l.split("\t")[1] == h["id"]]
-    else:
-        body = lines + vlines
+            h = ln[1]
+            if h["rep"]:
+                body.append(f"R\t{h['chrom']}\t{h['start']}\t{h['end']}\t{h['id']}")
+            else:
+                body.append(f"H\t{h['chrom']}\t{h['start']}\t{h['end']}\t{h['id']}" + (f"\t{h['anc']}" if anc else ""))
     with open(path, "w") as f:
         f.write("\n".join(body) + "\n")
     if indexed:
@@ -1063,13 +1177,106 @@ def fix_runs(inp, k=0):
     return dict(inp, runs=runs)
 
 
+# ---- the names of the files.  `transform` finds the breakpoints file by name: "the same name as the genotypes file
+#      but with a .bp file ending" (docs/commands/transform.rst), i.e. <stem>.bp beside <stem>.vcf / .vcf.gz / .bcf /
+#      .pgen, whatever dots the stem and the directories contain.  An input may carry
+#        "names": {"dir": sub-directory ("" = none), "stem": file stem, "ext": vcf | bcf | VCF (suffix of the
+#                  un-indexed VCF/BCF run), "decoys": [[path relative to the run's directory, kind], ...],
+#                  "stale_pop": the VCF of the .bp run ALSO has POP fields, of another data set}
+#      decoys = another data set's .bp under a name that a wrong derivation would pick (kind "rot": the same samples with
+#      every label replaced by another one; "foreign": other sample names).  The .bp named after the genotypes file
+#      (written for the runs with src = "bp") is the right one by definition; holds / f_expected use its content.
+DEFAULT_NAMES = {"dir": "", "stem": "g", "ext": "vcf", "decoys": [], "stale_pop": False}
+STEMS = ["g", "a.b", "cohort.chr1", "x.vcf", "sim.v2", ".hidden", "x.gz", "a..b", "S.pgen", "geno.bp", "chr1.1-5000.v3",
+         "v.", "cohort.chr1.vcf", "Gen.VCF.x"]
+DIRS = ["", "", "", "d.v1", "run.2024.vcf", "a.b/c.d", "nodots", ".cache"]
+
+
+def names_of(inp):
+    return dict(DEFAULT_NAMES, **(inp.get("names") or {}))
+
+
+def gt_suffix(inp, run):
+    if run["fmt"] == "pgen":
+        return ".pgen"
+    return ".vcf.gz" if run.get("gz", True) else "." + names_of(inp)["ext"]
+
+
+def gt_relpath(inp, run):
+    nm = names_of(inp)
+    return os.path.join(nm["dir"], nm["stem"] + gt_suffix(inp, run))
+
+
+def right_bp_relpath(inp):
+    """the breakpoints file that accompanies the genotypes: by construction of the names, not by pathlib"""
+    nm = names_of(inp)
+    return os.path.join(nm["dir"], nm["stem"] + ".bp")
+
+
+def wrong_bp_relpaths(dirp, stem, suffixes):
+    """names that plausible wrong derivations of the .bp path would pick for dirp/stem+suffix"""
+    c = set()
+    for suf in suffixes:
+        nm = stem + suf
+        lead = len(nm) - len(nm.lstrip("."))
+        cands = [
+            nm[:lead] + nm[lead:].split(".")[0],                     # every suffix stripped
+            nm,                                                      # .bp appended
+            nm.rsplit(".", 1)[0],                                    # one suffix stripped (wrong for .vcf.gz)
+            nm.rsplit(".", 2)[0],                                    # two suffixes stripped (wrong for .vcf / .pgen)
+            nm.replace(".vcf.gz", "").replace(".vcf", "").replace(".bcf", "").replace(".pgen", "").replace(".gz", ""),
+            nm.rstrip(".vcfgzpenb"),                                 # str.rstrip taken for "remove this suffix"
+            nm.lower().rsplit(".", 1)[0],
+        ]
+        for x in cands:
+            if x and x not in (".", ".."):
+                c.add(os.path.join(dirp, x + ".bp"))
+        full = os.path.join(dirp, nm)
+        if "." in dirp:
+            c.add(full.split(".")[0] + ".bp" if not full.startswith(".") else "." + full[1:].split(".")[0] + ".bp")
+    right = os.path.join(dirp, stem + ".bp")
+    return sorted(x for x in c if x != right and os.path.basename(x) not in ("", ".bp") and not x.endswith("/.bp"))
+
+
+def gen_names(rng, fancy_p=0.45):
+    if rng.random() >= fancy_p:
+        return None
+    stem = STEMS[int(rng.integers(0, len(STEMS)))]
+    dirp = DIRS[int(rng.integers(0, len(DIRS)))]
+    ext = str(rng.choice(["vcf", "vcf", "bcf", "VCF"]))
+    cands = wrong_bp_relpaths(dirp, stem, [".vcf", ".vcf.gz", ".pgen", "." + ext])
+    decoys = []
+    if cands and rng.random() < 0.75:
+        for i in rng.permutation(len(cands))[: int(rng.integers(1, 4))].tolist():
+            decoys.append([cands[i], "rot" if rng.random() < 0.7 else "foreign"])
+    return {"dir": dirp, "stem": stem, "ext": ext, "decoys": sorted(decoys), "stale_pop": bool(rng.random() < 0.3)}
+
+
+def rot_label(lab):
+    """another data set's label where this one has `lab`"""
+    if lab in LABELS:
+        return LABELS[(LABELS.index(lab) + 1) % len(LABELS)]
+    return "UNK" if lab is None else str(lab)[:5] + "x"
+
+
+def decoy_bp(anc, kind):
+    """(sample order, tracts) of another data set's .bp"""
+    ren = (lambda s: s) if kind == "rot" else (lambda s: "Z" + s)
+    tracts = {ren(s): [[[rot_label(lab), c, e] for lab, c, e in tl] for tl in anc["tracts"][s]] for s in anc["tracts"]}
+    return [ren(s) for s in anc["bp_order"]], tracts
+
+
+def str_term(s):
+    return L.zl([ord(ch) for ch in s])
+
+
 class File(Relation):
     name = "file"
-    coq_module = "C04_CheckOpt"
-    coq_check = "check_fileo"
-    coq_case_type = "ocase"
-    coq_model = "model_fileo"
-    coq_imports = ["Tracts", "C04_Model", "C04_Check", "C04_ModelOpt"]
+    coq_module = "C04_CheckIO"
+    coq_check = "check_filen"
+    coq_case_type = "ncase"
+    coq_model = "model_filen"
+    coq_imports = ["Tracts", "C04_Model", "C04_Check", "C04_ModelOpt", "C04_CheckOpt", "C04_ModelIO"]
     budget = {"quick": 240, "thorough": 3000}
 
     def preamble(self):
@@ -1179,7 +1386,7 @@ class File(Relation):
                 haps.insert(int(rng.integers(0, len(haps) + 1)),
                             {"id": "HE", "chrom": variants[0][1], "start": 3, "end": 4,
                              "anc": (labels[0] if labels else None), "vars": [], "rep": False})
-        layout = ["HV", "interleaved", "V-first"][int(rng.integers(0, 3))]
+        layout = pick_layout(rng, 0.6)
         # malformed stream
         r = rng.random()
         if use_anc and r < 0.05:
@@ -1200,6 +1407,9 @@ class File(Relation):
         case = {"samples": samples, "vars": variants, "data": data, "haps": haps, "indexed": indexed, "region": region,
                 "ids": ids, "samp": samp, "anc": anc, "runs": [{"cli": cli, "gz": gz}], "kind": kind, "layout": layout,
                 "gt_order": gt_order}
+        nm = gen_names(np.random.default_rng([int(rng.integers(0, 2**31)), 7]))
+        if nm is not None:
+            case["names"] = nm
         if rng.random() < 0.3:
             case = self._add_opts(np.random.default_rng([int(rng.integers(0, 2**31)), 5]), case)
         return fix_runs(case, k)
@@ -1419,7 +1629,7 @@ class File(Relation):
                     "ids": None, "samp": (None if k % 4 else ["s_2"]),
                     "anc": ({"tracts": tr4, "bp_order": [["s1", "s_2"], ["s_2", "s1"]][k % 2]} if anc_on else None),
                     "runs": [{"cli": (k % 5 == 0), "gz": (k % 2 == 0)}], "kind": "exhaustive-gt-order",
-                    "layout": ["HV", "interleaved", "V-first"][k % 3]}
+                    "layout": (LAYOUTS_GROUPED + LAYOUTS_MIXED[:3] + [f"merge:{k}"])[k % 7]}
             extra.append(fix_runs(permute_gt(case, list(perm)), k))
         return out + extra[:: (1 if tier == "thorough" else 6)]
 
@@ -1459,16 +1669,30 @@ class File(Relation):
         if run["fmt"] == "pgen" and (not found or not sel):
             return {"skipped": "pgen-empty-match"}
         hapf = write_hap(os.path.join(d, "h.hap"), inp["haps"], use_anc, inp["indexed"], inp.get("layout", "HV"))
+        nm = names_of(inp)
+        base = os.path.join(d, nm["dir"], nm["stem"])
+        os.makedirs(os.path.dirname(base), exist_ok=True)
         if run["fmt"] == "vcf":
             pop = pop_matrix(inp) if run["src"] == "pop" else None
             if pop is not None and any(x is None for s in pop for c in s for x in c):
                 return {"skipped": "pop-undefined"}
-            gtf = write_vcf(os.path.join(d, "g.vcf"), inp["samples"], inp["vars"], inp["data"], pop,
+            if run["src"] == "bp" and nm["stale_pop"]:
+                # POP fields of another data set beside the right .bp: the .bp wins (docs/commands/transform.rst)
+                pop = [[[rot_label(x) for x in c] for c in s] for s in pop_matrix(inp)]
+            gtf = write_vcf(base + ".vcf", inp["samples"], inp["vars"], inp["data"], pop,
                             index=run.get("gz", True), unph=inp.get("unph") or ())
+            if gtf.endswith(".vcf") and nm["ext"] != "vcf":
+                gtf = rename_vcf(gtf, base + "." + nm["ext"])
         else:
-            gtf = write_pgen(os.path.join(d, "g"), inp["samples"], inp["vars"], inp["data"], unph=inp.get("unph") or ())
+            gtf = write_pgen(base, inp["samples"], inp["vars"], inp["data"], unph=inp.get("unph") or ())
+        assert os.path.relpath(gtf, d) == gt_relpath(inp, run), (gtf, gt_relpath(inp, run))
         if run["src"] == "bp":
-            write_bp(os.path.join(d, "g.bp"), anc["bp_order"], anc["tracts"])
+            write_bp(os.path.join(d, right_bp_relpath(inp)), anc["bp_order"], anc["tracts"])
+        if anc is not None:
+            for rel, kind in nm["decoys"]:
+                os.makedirs(os.path.dirname(os.path.join(d, rel)), exist_ok=True)
+                write_bp(os.path.join(d, rel), *decoy_bp(anc, kind))
+        self._root = d
         outf = os.path.join(d, "out." + run["out"])
         reg = region_str(inp["region"])
         # what the run reports about variants it could not find (any WARNING+ record naming one of them)
@@ -1529,14 +1753,42 @@ class File(Relation):
                 return orig(self, gts, hap_gts)
             return transform
 
-        saved = (_hm.Haplotypes.transform, _tr.HaplotypesAncestry.transform)
+        # ... and which .bp paths the run probes (Path.exists) or opens (Breakpoints.read)
+        import pathlib
+        from haptools.data import breakpoints as _bm
+
+        root = self._root
+        bp_seen = []
+
+        def note(p):
+            try:
+                p = os.path.abspath(str(p))
+                if p.endswith(".bp"):
+                    bp_seen.append(os.path.relpath(p, root))
+            except Exception:  # noqa
+                pass
+
+        saved = (_hm.Haplotypes.transform, _tr.HaplotypesAncestry.transform, pathlib.Path.exists, _bm.Breakpoints.read)
+
+        def exists(self, *a, **k):
+            note(self)
+            return saved[2](self, *a, **k)
+
+        def bread(self, *a, **k):
+            note(self.fname)
+            return saved[3](self, *a, **k)
+
         _hm.Haplotypes.transform = wrap(saved[0])
         _tr.HaplotypesAncestry.transform = wrap(saved[1])
+        pathlib.Path.exists = exists
+        _bm.Breakpoints.read = bread
         try:
             res = self._run_three(inp, run, gtf, hapf, outf, reg, use_anc, opts, warned)
         finally:
-            _hm.Haplotypes.transform, _tr.HaplotypesAncestry.transform = saved
+            (_hm.Haplotypes.transform, _tr.HaplotypesAncestry.transform, pathlib.Path.exists,
+             _bm.Breakpoints.read) = saved
         res["geno"] = seen[0] if len(seen) == 1 else (None if not seen else {"unrecorded": f"{len(seen)} calls"})
+        res["bp_seen"] = sorted(set(bp_seen))
         return res
 
     def _run_three(self, inp, run, gtf, hapf, outf, reg, use_anc, opts, warned):
@@ -1628,9 +1880,22 @@ class File(Relation):
             ot = out_term(o, I)
             # what the other runs on the same logical data (other ancestry source / file formats) answered
             peers = L.lst([out_term(os_[j], I) for j in range(len(os_)) if j != i and "ok" in os_[j]])
-            terms.append(f"(mko (mkoc {t} {self._extra(inp)} {ot} {L.b(o.get('warned', False))}) "
-                         f"{L.hexfloat(opts.get('maf') if opts.get('maf') is not None else 0.0)} {peers} "
-                         f"{self._geno_term(o.get('geno'), I)})")
+            oc = (f"(mko (mkoc {t} {self._extra(inp)} {ot} {L.b(o.get('warned', False))}) "
+                  f"{L.hexfloat(opts.get('maf') if opts.get('maf') is not None else 0.0)} {peers} "
+                  f"{self._geno_term(o.get('geno'), I)})")
+            # the files as they lie on disk
+            use_anc = run["src"] != "none"
+            files = ([[right_bp_relpath(inp), 0]] if run["src"] == "bp" else []) + \
+                ([[rel, k + 1] for k, (rel, _) in enumerate(names_of(inp)["decoys"])] if inp["anc"] is not None else [])
+            ft = L.lst(files, lambda x: f"({str_term(x[0])}, {L.z(x[1])})")
+            st = L.lst(o.get("bp_seen") or [], str_term)
+            if inp["indexed"]:
+                lt = "[]"
+            else:
+                lt = L.lst(hap_lines(inp["haps"], inp.get("layout", "HV")),
+                           lambda ln: (f"(LV {L.z(I(ln[1]))} (mkhv {L.z(I(ln[2][0]))} {L.z(I(ln[2][1]))}))" if ln[0] == "V"
+                                       else f"(LH {hap_term(dict(ln[1], vars=[]), I, use_anc)})"))
+            terms.append(f"(mkn {oc} {str_term(gt_relpath(inp, run))} {L.b(use_anc)} {ft} {st} {lt})")
         return terms
 
     def _geno_term(self, g, I):
@@ -1693,8 +1958,11 @@ class File(Relation):
         return "haplotype-with-absent-variant" in self._features(inp)
 
     def classes(self, inp, obs):
-        out = [inp["kind"].split("+")[0], "indexed-hap" if inp["indexed"] else f"plain-hap-{inp.get('layout', 'HV')}"] \
+        out = [inp["kind"].split("+")[0],
+               "indexed-hap" if inp["indexed"] else f"plain-hap-{inp.get('layout', 'HV').split(':')[0]}"] \
             + self._features(inp)
+        if not inp["indexed"] and vlines_interleaved(inp["haps"], inp.get("layout", "HV")):
+            out.append("hap-V-lines-of-different-haplotypes-interleaved")
         vs = inp["vars"]
         chs = [v[1] for v in vs]
         if any(chs[i] != chs[i + 1] and chs[i] in chs[i + 1:] for i in range(len(chs) - 1)):
@@ -1714,6 +1982,21 @@ class File(Relation):
                 out.append("pop-and-bp-both-answered")
         if any(not h["rep"] and not h["vars"] for h in inp["haps"]):
             out.append("haplotype-without-variants")
+        nm = names_of(inp)
+        if inp.get("names"):
+            out.append("names:stem-with-dots" if "." in nm["stem"] else "names:plain-stem")
+            if "." in nm["dir"]:
+                out.append("names:directory-with-dots")
+            if inp["anc"] is not None and nm["decoys"]:
+                out.append("names:decoy-bp-present")
+                if any(os.path.dirname(rel) != nm["dir"] for rel, _ in nm["decoys"]):
+                    out.append("names:decoy-bp-in-parent-directory")
+            if inp["anc"] is not None and nm["stale_pop"]:
+                out.append("names:stale-POP-fields-beside-bp")
+            for r in inp["runs"]:
+                out.append("names:suffix" + gt_suffix(inp, r))
+        else:
+            out.append("names:default")
         out += inp["kind"].split("+")[1:]
         opts = inp.get("opts") or {}
         miss = [c for row in inp["data"] for c in row if 255 in c]
@@ -1749,6 +2032,15 @@ class File(Relation):
         if len(inp["runs"]) > 1:
             for i in range(len(inp["runs"])):
                 yield dict(inp, runs=[inp["runs"][i]])
+        if inp.get("names"):
+            nm = names_of(inp)
+            yield {k: v for k, v in inp.items() if k != "names"}
+            for i in range(len(nm["decoys"])):
+                yield dict(inp, names=dict(nm, decoys=nm["decoys"][:i] + nm["decoys"][i + 1:]))
+            if nm["stale_pop"]:
+                yield dict(inp, names=dict(nm, stale_pop=False))
+            if nm["dir"]:
+                yield dict(inp, names=dict(nm, dir="", decoys=[]))
         if any(r["cli"] for r in inp["runs"]):
             yield dict(inp, runs=[dict(r, cli=False) for r in inp["runs"]])
         for k in ("region", "ids", "samp"):
@@ -1844,6 +2136,11 @@ LEVEL_NOTE = (
     "(f_expected of a restricted input), closed form on well-formed inputs, the MAF filter's specification, soundness "
     "of the new checker holds_o and of its exact-arithmetic margins, the model's answer passes holds_o; agree also compares "
     "the genotype object handed to Haplotypes[Ancestry].transform with the model's (model_geno), and the answer is proved "
-    "to be the set-wise transform of exactly that object."
+    "to be the set-wise transform of exactly that object. Third round (C04_ModelIO): the collection loop of "
+    "Haplotypes.read over the lines of a .hap file (read_lines = closed form for every list of lines; the result depends "
+    "only on the H/R sequence and the per-haplotype V sequences, so every interleaving reads back the same haplotypes "
+    "with all their V lines) and the character-level derivation of the .bp path (bp_path_of: <dir><stem>.<ext>[.gz] -> "
+    "<dir><stem>.bp for every stem and directory, dots included; a .bp under any other name does not change the source); "
+    "agree evaluates both against what was written / touched."
 )
 TECHNIQUE = "Coq proof by induction on haplotype/variant lists + vm_compute-evaluated correspondence against the implementation"
